@@ -383,6 +383,25 @@ def s_opt_copied(ip, frame, bb, st, callee, args, dty):
     return out
 
 
+def s_minmax(is_min):
+    def f(ip, frame, bb, st, callee, args, dty):
+        from .interp import Unsupported
+        a, b = args[0], args[1]
+        if isinstance(a, VRef):
+            a = deref(ip, st, a)
+            b = deref(ip, st, b)
+        if not (isinstance(a, VInt) and isinstance(b, VInt)):
+            raise Unsupported("min/max of non-integers")
+        x, y = fork_cmp(st, "Le", a.lin, b.lin)
+        out = []
+        if x is not None:
+            out.append((x, a if is_min else b))
+        if y is not None:
+            out.append((y, b if is_min else a))
+        return out
+    return f
+
+
 def s_expect(ip, frame, bb, st, callee, args, dty):
     return s_unwrap(ip, frame, bb, st, callee, args[:1], dty)
 
@@ -1107,6 +1126,10 @@ def install(ip):
     E["<T as std::convert::TryInto<U>>::try_into"] = s_try_into
     E["<I as std::iter::IntoIterator>::into_iter"] = s_identity
     E["std::iter::Iterator::by_ref"] = s_identity
+    E["std::cmp::min"] = s_minmax(True)
+    E["std::cmp::max"] = s_minmax(False)
+    E["std::cmp::Ord::min"] = s_minmax(True)
+    E["std::cmp::Ord::max"] = s_minmax(False)
     E["std::result::Result::<T, E>::unwrap"] = s_unwrap
     E["std::option::Option::<T>::unwrap"] = s_unwrap
     E["std::option::Option::<T>::is_some"] = s_is_variant(1)
